@@ -1,18 +1,96 @@
-// scratch probe (to be replaced by the harness)
-use std::collections::VecDeque;
+//! C11 correspondence harness: the read/write helper algorithms of the real compio-io
+//! (read_exact, read_to_end, append, read_vectored(_exact), write_all, write_vectored(_all), copy,
+//! Take, BufReader, BufWriter, split halves, in-memory readers/writers/cursors) driven by text
+//! operations over *scripted* inner streams (see lean/Drivers/C11.lean for the grammar).
+//!
+//! Monitors are implementation-only: they compare with a straightforward reference computed here
+//! (payload prefix placed at the start of the destination, FIFO accounting of every byte).
 
-use compio_buf::{BufResult, IoBuf, IoBufMut, SetLenExt};
-use compio_io::{AsyncRead, AsyncReadExt, AsyncWrite, AsyncWriteExt, BufReader, BufWriter};
+use std::{
+    cell::RefCell,
+    collections::VecDeque,
+    io::{self, Cursor, ErrorKind},
+};
 
-#[derive(Clone, Debug)]
-enum O {
+use compio_buf::{BufResult, IntoInner, IoBuf, IoBufMut, IoVectoredBuf, IoVectoredBufMut, SetLenExt};
+use compio_io::{
+    AsyncBufRead, AsyncRead, AsyncReadExt, AsyncWrite, AsyncWriteExt, BufReader, BufWriter,
+    util::{
+        Take,
+        split::{ReadHalf, WriteHalf},
+    },
+};
+use hx_common::*;
+
+#[path = "c11/mem.rs"]
+mod mem;
+
+// ---------------------------------------------------------------------------------------------
+// scripts
+
+#[derive(Clone, Debug, PartialEq)]
+pub enum O {
     Ok(usize),
     Intr,
-    Err,
+    Err(u32),
     Eof,
 }
 
-struct SR {
+pub fn kind_of(k: u32) -> ErrorKind {
+    match k % 5 {
+        0 => ErrorKind::Other,
+        1 => ErrorKind::BrokenPipe,
+        2 => ErrorKind::PermissionDenied,
+        3 => ErrorKind::TimedOut,
+        _ => ErrorKind::ConnectionReset,
+    }
+}
+
+pub fn show_err(e: &io::Error) -> String {
+    match e.kind() {
+        ErrorKind::Interrupted => "intr".into(),
+        ErrorKind::UnexpectedEof => "eof".into(),
+        ErrorKind::WriteZero => "wz".into(),
+        ErrorKind::Other => "e0".into(),
+        ErrorKind::BrokenPipe => "e1".into(),
+        ErrorKind::PermissionDenied => "e2".into(),
+        ErrorKind::TimedOut => "e3".into(),
+        ErrorKind::ConnectionReset => "e4".into(),
+        k => format!("e?{k:?}"),
+    }
+}
+
+pub fn parse_script(s: &str) -> VecDeque<O> {
+    if s == "." {
+        return VecDeque::new();
+    }
+    s.split(',')
+        .map(|t| match t {
+            "i" => O::Intr,
+            "z" => O::Eof,
+            t if t.starts_with('e') => O::Err(t[1..].parse().expect("err kind")),
+            t => O::Ok(t.parse().expect("ok n")),
+        })
+        .collect()
+}
+
+pub fn show_script(sc: &[O]) -> String {
+    if sc.is_empty() {
+        return ".".into();
+    }
+    sc.iter()
+        .map(|o| match o {
+            O::Ok(n) => n.to_string(),
+            O::Intr => "i".into(),
+            O::Err(k) => format!("e{k}"),
+            O::Eof => "z".into(),
+        })
+        .collect::<Vec<_>>()
+        .join(",")
+}
+
+/// scripted reader: plays the script over `stream`
+pub struct SR {
     stream: Vec<u8>,
     pos: usize,
     sc: VecDeque<O>,
@@ -22,8 +100,8 @@ impl AsyncRead for SR {
     async fn read<B: IoBufMut>(&mut self, mut buf: B) -> BufResult<usize, B> {
         match self.sc.pop_front() {
             None | Some(O::Eof) => BufResult(Ok(0), buf),
-            Some(O::Intr) => BufResult(Err(std::io::ErrorKind::Interrupted.into()), buf),
-            Some(O::Err) => BufResult(Err(std::io::Error::other("x")), buf),
+            Some(O::Intr) => BufResult(Err(ErrorKind::Interrupted.into()), buf),
+            Some(O::Err(k)) => BufResult(Err(kind_of(k).into()), buf),
             Some(O::Ok(n)) => {
                 let dst = buf.as_uninit();
                 let n = n.min(dst.len()).min(self.stream.len() - self.pos);
@@ -38,17 +116,20 @@ impl AsyncRead for SR {
     }
 }
 
-struct SW {
+/// scripted writer: records what it accepted
+pub struct SW {
     got: Vec<u8>,
     sc: VecDeque<O>,
+    flushes: usize,
+    shutdowns: usize,
 }
 
 impl AsyncWrite for SW {
     async fn write<T: IoBuf>(&mut self, buf: T) -> BufResult<usize, T> {
         match self.sc.pop_front() {
             None | Some(O::Eof) => BufResult(Ok(0), buf),
-            Some(O::Intr) => BufResult(Err(std::io::ErrorKind::Interrupted.into()), buf),
-            Some(O::Err) => BufResult(Err(std::io::Error::other("x")), buf),
+            Some(O::Intr) => BufResult(Err(ErrorKind::Interrupted.into()), buf),
+            Some(O::Err(k)) => BufResult(Err(kind_of(k).into()), buf),
             Some(O::Ok(n)) => {
                 let s = buf.as_init();
                 let n = n.min(s.len());
@@ -58,41 +139,1582 @@ impl AsyncWrite for SW {
         }
     }
 
-    async fn flush(&mut self) -> std::io::Result<()> {
+    async fn flush(&mut self) -> io::Result<()> {
+        self.flushes += 1;
         Ok(())
     }
 
-    async fn shutdown(&mut self) -> std::io::Result<()> {
+    async fn shutdown(&mut self) -> io::Result<()> {
+        self.shutdowns += 1;
         Ok(())
     }
 }
 
-fn main() {
-    futures_executor::block_on(async {
-        // F12
-        let sr = SR { stream: b"hello world".to_vec(), pos: 0, sc: vec![O::Ok(100); 5].into() };
-        let mut br = BufReader::with_capacity(0, sr);
-        let BufResult(r, b) = br.read_to_end(vec![]).await;
-        println!("F12: {:?} {:?}", r, b);
+// ---------------------------------------------------------------------------------------------
+// dynamic reader compositions
 
-        // BufWriter duplicate on interrupted post-flush
-        for cap in [1usize, 2, 4, 7] {
-            let sw = SW { got: vec![], sc: vec![O::Intr, O::Ok(100), O::Ok(100), O::Ok(100), O::Ok(100), O::Ok(100)].into() };
-            let mut bw = BufWriter::with_capacity(cap, sw);
-            let BufResult(r, _) = bw.write_all(b"abcdefgh".to_vec()).await;
-            let f = bw.flush().await;
-            let inner = compio_buf::IntoInner::into_inner(bw);
-            println!("bw cap={cap}: {:?} {:?} got={:?}", r, f, String::from_utf8_lossy(&inner.got));
+/// both directions of a stream, for `split`
+pub struct Duplex {
+    r: Option<DynR>,
+    w: Option<DynW>,
+}
+
+pub enum DynR {
+    S(SR),
+    M(&'static [u8]),
+    C(Cursor<Vec<u8>>),
+    Take(Box<Take<DynR>>),
+    Buf(Box<BufReader<DynR>>, usize),
+    Half(ReadHalf<Duplex>, Option<WriteHalf<Duplex>>),
+}
+
+impl std::fmt::Debug for DynR {
+    fn fmt(&self, f: &mut std::fmt::Formatter<'_>) -> std::fmt::Result {
+        f.write_str("DynR")
+    }
+}
+
+impl std::fmt::Debug for DynW {
+    fn fmt(&self, f: &mut std::fmt::Formatter<'_>) -> std::fmt::Result {
+        f.write_str("DynW")
+    }
+}
+
+/// `Box<dyn IoBufMut>` and back: `Take<R>::read::<B>` calls `R::read::<Slice<B>>`, which for a
+/// recursive reader type would never stop instantiating; the buffer type is erased at that point.
+fn erase<B: IoBufMut>(buf: B) -> Box<dyn IoBufMut> {
+    Box::new(buf)
+}
+
+unsafe fn unerase<B: IoBufMut>(b: Box<dyn IoBufMut>) -> B {
+    // SAFETY (caller): `b` was created by `erase::<B>`
+    unsafe { *Box::from_raw(Box::into_raw(b) as *mut B) }
+}
+
+impl AsyncRead for DynR {
+    async fn read<B: IoBufMut>(&mut self, buf: B) -> BufResult<usize, B> {
+        match self {
+            DynR::S(s) => s.read(buf).await,
+            DynR::M(m) => m.read(buf).await,
+            DynR::C(c) => c.read(buf).await,
+            DynR::Take(t) => {
+                let BufResult(r, b) = Box::pin(t.read(erase(buf))).await;
+                BufResult(r, unsafe { unerase::<B>(b) })
+            }
+            DynR::Buf(b, _) => Box::pin(b.read(buf)).await,
+            DynR::Half(h, _) => Box::pin(h.read(buf)).await,
         }
-        // copy with size 0
-        let mut sr = SR { stream: b"hello".to_vec(), pos: 0, sc: vec![O::Ok(100); 5].into() };
-        let mut sw = SW { got: vec![], sc: vec![O::Ok(100); 5].into() };
-        let r = compio_io::util::copy_with_size(&mut sr, &mut sw, 0).await;
-        println!("copy0: {:?} got={:?}", r, sw.got);
-        // read_vectored into [empty cap 4, prefilled 4] from slice
-        let mut src: &[u8] = b"abc";
-        let bufs = vec![Vec::with_capacity(4), vec![1u8, 2, 3, 4]];
-        let BufResult(r, bufs) = src.read_vectored(bufs).await;
-        println!("rv: {:?} {:?}", r, bufs);
+    }
+
+    async fn read_vectored<V: IoVectoredBufMut>(&mut self, buf: V) -> BufResult<usize, V> {
+        match self {
+            DynR::S(s) => s.read_vectored(buf).await,
+            DynR::M(m) => m.read_vectored(buf).await,
+            DynR::C(c) => c.read_vectored(buf).await,
+            DynR::Take(t) => Box::pin(t.read_vectored(buf)).await,
+            DynR::Buf(b, _) => Box::pin(b.read_vectored(buf)).await,
+            DynR::Half(h, _) => Box::pin(h.read_vectored(buf)).await,
+        }
+    }
+}
+
+impl AsyncBufRead for DynR {
+    async fn fill_buf(&mut self) -> io::Result<&'_ [u8]> {
+        match self {
+            DynR::Take(t) => Box::pin(t.fill_buf()).await,
+            DynR::Buf(b, _) => Box::pin(b.fill_buf()).await,
+            _ => Err(io::Error::new(ErrorKind::Unsupported, "no fill_buf")),
+        }
+    }
+
+    fn consume(&mut self, amount: usize) {
+        match self {
+            DynR::Take(t) => t.consume(amount),
+            DynR::Buf(b, _) => b.consume(amount),
+            _ => panic!("harness: consume on an unbuffered reader"),
+        }
+    }
+}
+
+impl AsyncRead for Duplex {
+    async fn read<B: IoBufMut>(&mut self, buf: B) -> BufResult<usize, B> {
+        Box::pin(self.r.as_mut().expect("read half").read(buf)).await
+    }
+
+    async fn read_vectored<V: IoVectoredBufMut>(&mut self, buf: V) -> BufResult<usize, V> {
+        Box::pin(self.r.as_mut().expect("read half").read_vectored(buf)).await
+    }
+}
+
+impl AsyncWrite for Duplex {
+    async fn write<T: IoBuf>(&mut self, buf: T) -> BufResult<usize, T> {
+        Box::pin(self.w.as_mut().expect("write half").write(buf)).await
+    }
+
+    async fn write_vectored<T: IoVectoredBuf>(&mut self, buf: T) -> BufResult<usize, T> {
+        Box::pin(self.w.as_mut().expect("write half").write_vectored(buf)).await
+    }
+
+    async fn flush(&mut self) -> io::Result<()> {
+        Box::pin(self.w.as_mut().expect("write half").flush()).await
+    }
+
+    async fn shutdown(&mut self) -> io::Result<()> {
+        Box::pin(self.w.as_mut().expect("write half").shutdown()).await
+    }
+}
+
+/// `init` and `progress` of the private `Buffer`, from its `Debug` output
+fn buffer_fields(dbg: &str) -> (usize, usize) {
+    let num = |key: &str| -> usize {
+        let i = dbg.rfind(key).expect("Buffer debug field") + key.len();
+        dbg[i..].chars().take_while(|c| c.is_ascii_digit()).collect::<String>().parse().unwrap()
+    };
+    (num("init: "), num("progress: "))
+}
+
+/// what is known about a reader pipeline after an operation (for the monitors)
+#[derive(Default, Clone, Debug)]
+pub struct RdFacts {
+    /// bytes handed out by the base reader
+    pub consumed: usize,
+    /// bytes sitting in `BufReader` layers
+    pub buffered: usize,
+}
+
+impl DynR {
+    pub fn parse(spec: &str) -> DynR {
+        let parts: Vec<&str> = spec.split('/').collect();
+        let base = parts.last().unwrap();
+        let f: Vec<&str> = base.split(':').collect();
+        let mut r = match f[0] {
+            "s" => DynR::S(SR { stream: unhex(f[1]), pos: 0, sc: parse_script(f[2]) }),
+            "m" => DynR::M(Box::leak(unhex(f[1]).into_boxed_slice())),
+            "c" => {
+                let mut c = Cursor::new(unhex(f[1]));
+                c.set_position(f[2].parse().expect("cursor pos"));
+                DynR::C(c)
+            }
+            _ => panic!("reader base {base}"),
+        };
+        for w in parts[..parts.len() - 1].iter().rev() {
+            let f: Vec<&str> = w.split(':').collect();
+            r = match f[0] {
+                "take" => DynR::Take(Box::new(r.take(f[1].parse().expect("limit")))),
+                "buf" => {
+                    let cap: usize = f[1].parse().expect("cap");
+                    DynR::Buf(Box::new(BufReader::with_capacity(cap, r)), cap)
+                }
+                "half" => {
+                    let (rh, wh) = compio_io::split(Duplex { r: Some(r), w: None });
+                    DynR::Half(rh, Some(wh))
+                }
+                _ => panic!("reader wrapper {w}"),
+            };
+        }
+        r
+    }
+
+    /// canonical state text (consumes the reader) + facts
+    pub fn show(self, facts: &mut RdFacts) -> String {
+        match self {
+            DynR::S(s) => {
+                facts.consumed = s.pos;
+                format!("s[{};{}]", hex(&s.stream[s.pos..]), s.sc.len())
+            }
+            DynR::M(m) => format!("m[{}]", hex(m)),
+            DynR::C(c) => format!("c[{}]", c.position()),
+            DynR::Take(t) => {
+                let l = t.limit();
+                format!("take({})/{}", l, t.into_inner().show(facts))
+            }
+            DynR::Buf(b, _) => {
+                let (init, progress) = buffer_fields(&format!("{b:?}"));
+                facts.buffered += init - progress;
+                format!("buf({},{})/{}", init, progress, (*b).into_inner().show(facts))
+            }
+            DynR::Half(r, w) => {
+                let d = r.unsplit(w.expect("write half kept"));
+                d.r.expect("reader").show(facts)
+            }
+        }
+    }
+}
+
+// ---------------------------------------------------------------------------------------------
+// dynamic writer compositions
+
+thread_local! {
+    /// F13 root cause seen in the current case: a `BufWriter::write*` call returned an error
+    /// although it had taken bytes into its buffer
+    static ERR_AFTER_BUFFERING: RefCell<Vec<String>> = const { RefCell::new(Vec::new()) };
+}
+
+pub enum DynW {
+    S(SW),
+    V(Vec<u8>),
+    /// `&mut [u8]` over a leaked allocation (base pointer, total length)
+    SM(&'static mut [u8], *mut u8, usize),
+    CV(Cursor<Vec<u8>>),
+    CA(Cursor<Box<[u8]>>),
+    Buf(Box<BufWriter<DynW>>, usize),
+    Half(WriteHalf<Duplex>, Option<ReadHalf<Duplex>>),
+}
+
+impl DynW {
+    /// bytes accepted so far by the layers below a `BufWriter` (only meaningful for a scripted base)
+    fn below_len(&self) -> Option<usize> {
+        match self {
+            DynW::S(s) => Some(s.got.len()),
+            DynW::V(v) => Some(v.len()),
+            _ => None,
+        }
+    }
+}
+
+fn bufwriter_pending(b: &BufWriter<DynW>) -> usize {
+    let (init, progress) = buffer_fields(&format!("{b:?}"));
+    init - progress
+}
+
+/// `BufWriter<DynW>` has no accessor for the inner writer: read `got.len()` through its Debug
+/// representation is not possible, so the inner length is tracked in a thread-local by `SW`/`Vec`.
+thread_local! {
+    static INNER_LEN: RefCell<usize> = const { RefCell::new(0) };
+}
+
+impl AsyncWrite for DynW {
+    async fn write<T: IoBuf>(&mut self, buf: T) -> BufResult<usize, T> {
+        match self {
+            DynW::S(s) => {
+                let r = s.write(buf).await;
+                INNER_LEN.with(|l| *l.borrow_mut() = s.got.len());
+                r
+            }
+            DynW::V(v) => {
+                let r = v.write(buf).await;
+                INNER_LEN.with(|l| *l.borrow_mut() = v.len());
+                r
+            }
+            DynW::SM(s, ..) => s.write(buf).await,
+            DynW::CV(c) => c.write(buf).await,
+            DynW::CA(c) => c.write(buf).await,
+            DynW::Buf(b, _) => {
+                let before = INNER_LEN.with(|l| *l.borrow()) + bufwriter_pending(b);
+                let n = buf.as_init().len();
+                let r = Box::pin(b.write(buf)).await;
+                let after = INNER_LEN.with(|l| *l.borrow()) + bufwriter_pending(b);
+                if r.0.is_err() && after > before {
+                    ERR_AFTER_BUFFERING.with(|v| {
+                        v.borrow_mut().push(format!(
+                            "write of {n} bytes returned {} but {} bytes were taken into the buffer",
+                            show_err(r.0.as_ref().unwrap_err()),
+                            after - before
+                        ))
+                    });
+                }
+                r
+            }
+            DynW::Half(h, _) => Box::pin(h.write(buf)).await,
+        }
+    }
+
+    async fn write_vectored<T: IoVectoredBuf>(&mut self, buf: T) -> BufResult<usize, T> {
+        match self {
+            DynW::S(s) => {
+                let r = s.write_vectored(buf).await;
+                INNER_LEN.with(|l| *l.borrow_mut() = s.got.len());
+                r
+            }
+            DynW::V(v) => {
+                let r = v.write_vectored(buf).await;
+                INNER_LEN.with(|l| *l.borrow_mut() = v.len());
+                r
+            }
+            DynW::SM(s, ..) => s.write_vectored(buf).await,
+            DynW::CV(c) => c.write_vectored(buf).await,
+            DynW::CA(c) => c.write_vectored(buf).await,
+            DynW::Buf(b, _) => {
+                let before = INNER_LEN.with(|l| *l.borrow()) + bufwriter_pending(b);
+                let r = Box::pin(b.write_vectored(buf)).await;
+                let after = INNER_LEN.with(|l| *l.borrow()) + bufwriter_pending(b);
+                if r.0.is_err() && after > before {
+                    ERR_AFTER_BUFFERING.with(|v| {
+                        v.borrow_mut().push(format!(
+                            "write_vectored returned {} but {} bytes were taken into the buffer",
+                            show_err(r.0.as_ref().unwrap_err()),
+                            after - before
+                        ))
+                    });
+                }
+                r
+            }
+            DynW::Half(h, _) => Box::pin(h.write_vectored(buf)).await,
+        }
+    }
+
+    async fn flush(&mut self) -> io::Result<()> {
+        match self {
+            DynW::S(s) => s.flush().await,
+            DynW::V(v) => v.flush().await,
+            DynW::SM(s, ..) => s.flush().await,
+            DynW::CV(c) => c.flush().await,
+            DynW::CA(c) => c.flush().await,
+            DynW::Buf(b, _) => Box::pin(b.flush()).await,
+            DynW::Half(h, _) => Box::pin(h.flush()).await,
+        }
+    }
+
+    async fn shutdown(&mut self) -> io::Result<()> {
+        match self {
+            DynW::S(s) => s.shutdown().await,
+            DynW::V(v) => v.shutdown().await,
+            DynW::SM(s, ..) => s.shutdown().await,
+            DynW::CV(c) => c.shutdown().await,
+            DynW::CA(c) => c.shutdown().await,
+            DynW::Buf(b, _) => Box::pin(b.shutdown()).await,
+            DynW::Half(h, _) => Box::pin(h.shutdown()).await,
+        }
+    }
+}
+
+#[derive(Default, Clone, Debug)]
+pub struct WrFacts {
+    /// bytes that reached the base writer (scripted / Vec), if it has such a notion
+    pub got: Option<Vec<u8>>,
+    /// bytes sitting in the `BufWriter`
+    pub pending: usize,
+    pub buf_cap: Option<usize>,
+}
+
+impl DynW {
+    pub fn parse(spec: &str) -> DynW {
+        let parts: Vec<&str> = spec.split('/').collect();
+        let base = parts.last().unwrap();
+        let f: Vec<&str> = base.split(':').collect();
+        let mut w = match f[0] {
+            "s" => DynW::S(SW { got: vec![], sc: parse_script(f[1]), flushes: 0, shutdowns: 0 }),
+            "v" => DynW::V(unhex(f[1])),
+            "sm" => {
+                let b: &'static mut [u8] = Box::leak(unhex(f[1]).into_boxed_slice());
+                let (p, l) = (b.as_mut_ptr(), b.len());
+                DynW::SM(b, p, l)
+            }
+            "cv" => {
+                let mut c = Cursor::new(unhex(f[1]));
+                c.set_position(f[2].parse().expect("cursor pos"));
+                DynW::CV(c)
+            }
+            "ca" => {
+                let mut c = Cursor::new(unhex(f[1]).into_boxed_slice());
+                c.set_position(f[2].parse().expect("cursor pos"));
+                DynW::CA(c)
+            }
+            _ => panic!("writer base {base}"),
+        };
+        INNER_LEN.with(|l| *l.borrow_mut() = w.below_len().unwrap_or(0));
+        for wr in parts[..parts.len() - 1].iter().rev() {
+            let f: Vec<&str> = wr.split(':').collect();
+            w = match f[0] {
+                "buf" => {
+                    let cap: usize = f[1].parse().expect("cap");
+                    DynW::Buf(Box::new(BufWriter::with_capacity(cap, w)), cap)
+                }
+                "half" => {
+                    let (rh, wh) = compio_io::split(Duplex { r: None, w: Some(w) });
+                    DynW::Half(wh, Some(rh))
+                }
+                _ => panic!("writer wrapper {wr}"),
+            };
+        }
+        w
+    }
+
+    pub fn show(self, facts: &mut WrFacts) -> String {
+        match self {
+            DynW::S(s) => {
+                let t = format!("s[{};{};f{};s{}]", hex(&s.got), s.sc.len(), s.flushes, s.shutdowns);
+                facts.got = Some(s.got);
+                t
+            }
+            DynW::V(v) => {
+                let t = format!("v[{}]", hex(&v));
+                facts.got = Some(v);
+                t
+            }
+            DynW::SM(s, p, l) => {
+                let rest = s.len();
+                #[allow(dropping_references)]
+                drop(s);
+                // SAFETY: the leaked allocation is still alive and no other reference exists
+                let whole = unsafe { std::slice::from_raw_parts(p, l) };
+                format!("sm[{};{}]", hex(whole), rest)
+            }
+            DynW::CV(c) => format!("cv[{};{}]", hex(c.get_ref()), c.position()),
+            DynW::CA(c) => format!("ca[{};{}]", hex(c.get_ref()), c.position()),
+            DynW::Buf(b, cap) => {
+                let (init, progress) = buffer_fields(&format!("{b:?}"));
+                facts.pending += init - progress;
+                facts.buf_cap = Some(cap);
+                format!("buf({},{})/{}", init, progress, (*b).into_inner().show(facts))
+            }
+            DynW::Half(w, r) => {
+                let d = r.expect("read half kept").unsplit(w);
+                d.w.expect("writer").show(facts)
+            }
+        }
+    }
+}
+
+// ---------------------------------------------------------------------------------------------
+// destinations
+
+/// `<hex>+<extra>`: a `Vec<u8>` with that content and `extra` bytes of spare capacity
+pub fn parse_dst(s: &str) -> Vec<u8> {
+    let (h, e) = s.split_once('+').expect("dst");
+    let d = unhex(h);
+    let extra: usize = e.parse().expect("extra");
+    let mut v = Vec::with_capacity(d.len() + extra);
+    v.extend_from_slice(&d);
+    assert_eq!(v.capacity(), d.len() + extra, "allocator returned a different capacity");
+    v
+}
+
+pub fn show_dst(v: &Vec<u8>) -> String {
+    format!("{} {}", hex(v), v.capacity())
+}
+
+pub fn parse_members(s: &str) -> Vec<Vec<u8>> {
+    if s == "." { vec![] } else { s.split(';').map(parse_dst).collect() }
+}
+
+pub fn show_members(m: &[Vec<u8>]) -> String {
+    if m.is_empty() {
+        ".".into()
+    } else {
+        m.iter().map(|v| format!("{}+{}", hex(v), v.capacity() - v.len())).collect::<Vec<_>>().join(";")
+    }
+}
+
+pub fn parse_views(s: &str, sep: char) -> Vec<Vec<u8>> {
+    if s == "." { vec![] } else { s.split(sep).map(unhex).collect() }
+}
+
+pub fn show_res<T>(r: &io::Result<T>, f: impl Fn(&T) -> String) -> String {
+    match r {
+        Ok(v) => f(v),
+        Err(e) => show_err(e),
+    }
+}
+
+fn ok_unit(_: &()) -> String {
+    "ok".into()
+}
+
+fn ok_n(n: &usize) -> String {
+    format!("ok:{n}")
+}
+
+// ---------------------------------------------------------------------------------------------
+// reference helpers for the monitors
+
+/// what the script says about the base reader, independent of any implementation
+struct ScriptInfo {
+    stream: Vec<u8>,
+    /// every entry is `Ok(n >= 1)` or `Intr`, and there are more `Ok` entries than stream bytes:
+    /// a reader that never reports a premature end
+    honest: bool,
+    has_intr: bool,
+    errs: Vec<u32>,
+}
+
+fn base_of(spec: &str) -> &str {
+    spec.rsplit('/').next().unwrap()
+}
+
+fn script_info(rspec: &str) -> Option<ScriptInfo> {
+    let f: Vec<&str> = base_of(rspec).split(':').collect();
+    match f[0] {
+        "s" => {
+            let sc: Vec<O> = parse_script(f[2]).into();
+            let stream = unhex(f[1]);
+            let oks = sc.iter().filter(|o| matches!(o, O::Ok(n) if *n >= 1)).count();
+            let honest = sc.iter().all(|o| matches!(o, O::Intr) || matches!(o, O::Ok(n) if *n >= 1))
+                && oks > stream.len();
+            Some(ScriptInfo {
+                honest,
+                has_intr: sc.contains(&O::Intr),
+                errs: sc.iter().filter_map(|o| if let O::Err(k) = o { Some(*k % 5) } else { None }).collect(),
+                stream,
+            })
+        }
+        "m" => Some(ScriptInfo { stream: unhex(f[1]), honest: true, has_intr: false, errs: vec![] }),
+        "c" => {
+            let d = unhex(f[1]);
+            let p: u64 = f[2].parse().unwrap();
+            let p = (p.min(d.len() as u64)) as usize;
+            Some(ScriptInfo { stream: d[p..].to_vec(), honest: true, has_intr: false, errs: vec![] })
+        }
+        _ => None,
+    }
+}
+
+/// the smallest `take` limit and the smallest `BufReader` capacity of a reader spec
+fn wrappers_of(rspec: &str) -> (Option<u64>, Option<usize>) {
+    let mut lim: Option<u64> = None;
+    let mut cap: Option<usize> = None;
+    for w in rspec.split('/') {
+        if let Some(l) = w.strip_prefix("take:") {
+            let l: u64 = l.parse().unwrap();
+            lim = Some(lim.map_or(l, |x| x.min(l)));
+        }
+        if let Some(c) = w.strip_prefix("buf:") {
+            let c: usize = c.parse().unwrap();
+            cap = Some(cap.map_or(c, |x| x.min(c)));
+        }
+    }
+    (lim, cap)
+}
+
+fn strip_intr(spec: &str) -> String {
+    // remove the `i` entries of every script in a reader/writer spec
+    spec.split('/')
+        .map(|part| {
+            let f: Vec<&str> = part.split(':').collect();
+            if f[0] == "s" {
+                let idx = f.len() - 1;
+                let sc: Vec<O> = parse_script(f[idx]).into_iter().filter(|o| *o != O::Intr).collect();
+                let mut g: Vec<String> = f.iter().map(|s| s.to_string()).collect();
+                g[idx] = show_script(&sc);
+                g.join(":")
+            } else {
+                part.to_string()
+            }
+        })
+        .collect::<Vec<_>>()
+        .join("/")
+}
+
+/// drop the "entries left" counter of scripted streams from a state text (it legitimately differs
+/// between a script and the same script without its `Interrupted` entries)
+fn blur_script_left(state: &str) -> String {
+    let mut out = String::new();
+    let mut rest = state;
+    while let Some(i) = rest.find("s[") {
+        out.push_str(&rest[..i + 2]);
+        rest = &rest[i + 2..];
+        let end = rest.find(']').unwrap();
+        let inner: Vec<&str> = rest[..end].split(';').collect();
+        let mut kept: Vec<&str> = inner.clone();
+        if kept.len() >= 2 {
+            kept[1] = "_";
+        }
+        out.push_str(&kept.join(";"));
+        rest = &rest[end..];
+    }
+    out.push_str(rest);
+    out
+}
+
+fn overlay(orig: &[u8], pos: usize, src: &[u8]) -> Vec<u8> {
+    let mut v = orig.to_vec();
+    if v.len() < pos + src.len() {
+        v.resize(pos + src.len(), 0);
+    }
+    v[pos..pos + src.len()].copy_from_slice(src);
+    v
+}
+
+// ---------------------------------------------------------------------------------------------
+// operations
+
+struct RdRun {
+    /// output text of the result part (`ok`, `ok:5`, `eof`, `e1`, ...) or `panic`
+    res: String,
+    dst: Vec<u8>,
+    dst_cap: usize,
+    state: String,
+    facts: RdFacts,
+    panic: Option<String>,
+}
+
+fn run_reader_op(op: &str, rspec: &str, dspec: &str) -> RdRun {
+    let r = catch(|| {
+        futures_executor::block_on(async {
+            let mut r = DynR::parse(rspec);
+            let d = parse_dst(dspec);
+            let (res, d) = match op {
+                "rx" => {
+                    let BufResult(res, d) = r.read_exact(d).await;
+                    (show_res(&res, ok_unit), d)
+                }
+                "re" => {
+                    let BufResult(res, d) = r.read_to_end(d).await;
+                    (show_res(&res, ok_n), d)
+                }
+                "ap" => {
+                    let BufResult(res, d) = r.append(d).await;
+                    (show_res(&res, ok_n), d)
+                }
+                "rd" => {
+                    let BufResult(res, d) = r.read(d).await;
+                    (show_res(&res, ok_n), d)
+                }
+                _ => unreachable!(),
+            };
+            let mut facts = RdFacts::default();
+            let state = r.show(&mut facts);
+            (res, d, state, facts)
+        })
     });
+    match r {
+        Ok((res, d, state, facts)) => {
+            RdRun { res, dst_cap: d.capacity(), dst: d, state, facts, panic: None }
+        }
+        Err(m) => RdRun {
+            res: "panic".into(),
+            dst: vec![],
+            dst_cap: 0,
+            state: String::new(),
+            facts: RdFacts::default(),
+            panic: Some(m),
+        },
+    }
+}
+
+fn f15_shape(members: &[Vec<u8>]) -> bool {
+    // initialised parts do not form a prefix of the capacity-concatenation:
+    // some member with spare capacity is followed by a member with content
+    let mut spare_seen = false;
+    for m in members {
+        if spare_seen && !m.is_empty() {
+            return true;
+        }
+        if m.len() < m.capacity() {
+            spare_seen = true;
+        }
+    }
+    false
+}
+
+fn exec_reader_line(w: &[&str], line: &str, ex: &mut Exec) -> String {
+    let (op, rspec, dspec) = (w[0], w[1], w[2]);
+    let run = run_reader_op(op, rspec, dspec);
+    ex.tag(format!("op:{op}"));
+    ex.tag(format!("rd:{}", rspec.split('/').map(|p| p.split(':').next().unwrap()).collect::<Vec<_>>().join("/")));
+    ex.tag(format!("res:{op}:{}", run.res.split(':').next().unwrap()));
+    let (lim, bcap) = wrappers_of(rspec);
+    if let Some(m) = &run.panic {
+        ex.fail("C11:panic", format!("{line} => panic: {m}"));
+        return "panic".into();
+    }
+    let orig = {
+        let (h, _) = dspec.split_once('+').unwrap();
+        unhex(h)
+    };
+    let orig_cap = parse_dst(dspec).capacity();
+    if let Some(info) = script_info(rspec) {
+        // FIFO accounting: the destination received the first `d` stream bytes, in order
+        let consumed = if base_of(rspec).starts_with("s:") {
+            run.facts.consumed
+        } else {
+            // in-memory bases: recompute from the state text is awkward; use the delivered count below
+            usize::MAX
+        };
+        let start = match op {
+            "rx" | "rd" => 0,
+            _ => orig.len(),
+        };
+        // number of bytes that arrived = growth / result
+        let arrived: Option<usize> = match op {
+            "rx" => None,
+            _ => run.res.strip_prefix("ok:").map(|n| n.parse().unwrap()),
+        };
+        let d = if consumed != usize::MAX { consumed - run.facts.buffered } else { arrived.unwrap_or(0) };
+        if consumed != usize::MAX || arrived.is_some() {
+            if d > info.stream.len() {
+                ex.fail("C11:read-ref", format!("{line}: {d} bytes arrived from a {}-byte stream", info.stream.len()));
+            } else {
+                let want = if op == "rx" || op == "rd" {
+                    // overwrite from the start, the rest of the old content stays
+                    let mut v = overlay(&orig, 0, &info.stream[..d]);
+                    v.truncate(orig.len().max(d));
+                    v
+                } else {
+                    overlay(&orig, start, &info.stream[..d])
+                };
+                if run.dst != want {
+                    ex.fail(
+                        "C11:read-ref",
+                        format!("{line}: destination {} but the reference is {}", hex(&run.dst), hex(&want)),
+                    );
+                }
+                if let Some(n) = arrived {
+                    if n != d {
+                        ex.fail("C11:read-ref", format!("{line}: returned {n} but {d} bytes arrived"));
+                    }
+                }
+            }
+        }
+        if let Some(l) = lim {
+            if (d as u64) > l {
+                ex.fail("C11:take-limit", format!("{line}: {d} bytes through take({l})"));
+            }
+        }
+        // result classification
+        match op {
+            "rx" => {
+                let ok = run.res == "ok";
+                if ok != (d == orig_cap) && consumed != usize::MAX {
+                    ex.fail("C11:read-exact-result", format!("{line}: result {} with {d} of {orig_cap} bytes", run.res));
+                }
+                if !ok && run.res != "eof" {
+                    let k = run.res.strip_prefix('e').and_then(|k| k.parse::<u32>().ok());
+                    if k.is_none() || !info.errs.contains(&k.unwrap()) {
+                        ex.fail("C11:read-exact-result", format!("{line}: undocumented result {}", run.res));
+                    }
+                }
+                // completeness: an honest reader with enough bytes must fill the buffer
+                let avail = lim.map_or(info.stream.len() as u64, |l| l.min(info.stream.len() as u64));
+                if info.honest && avail >= orig_cap as u64 && !ok {
+                    let sig = if bcap == Some(0) { "F12:bufreader-cap0-eof" } else { "C11:read-exact-complete" };
+                    ex.fail(sig, format!("{line}: cap={:?} honest reader, {} bytes available, result {}", bcap, avail, run.res));
+                }
+            }
+            "re" => {
+                let avail = lim.map_or(info.stream.len() as u64, |l| l.min(info.stream.len() as u64));
+                if info.honest && run.res != format!("ok:{avail}") {
+                    let sig = if bcap == Some(0) { "F12:bufreader-cap0-eof" } else { "C11:read-to-end-complete" };
+                    ex.fail(sig, format!("{line}: cap={:?} honest reader with {avail} bytes, result {}", bcap, run.res));
+                }
+                if !run.res.starts_with("ok:") {
+                    let k = run.res.strip_prefix('e').and_then(|k| k.parse::<u32>().ok());
+                    if k.is_none() || !info.errs.contains(&k.unwrap()) {
+                        ex.fail("C11:read-to-end-result", format!("{line}: undocumented result {}", run.res));
+                    }
+                }
+            }
+            _ => {}
+        }
+        // Interrupted entries are transparent: same run without them
+        if info.has_intr && matches!(op, "rx" | "re") {
+            let run2 = run_reader_op(op, &strip_intr(rspec), dspec);
+            if run2.res != run.res
+                || run2.dst != run.dst
+                || blur_script_left(&run2.state) != blur_script_left(&run.state)
+            {
+                ex.fail(
+                    "C11:intr-transparent",
+                    format!(
+                        "{line}: {} {} | {} but without the Interrupted entries {} {} | {}",
+                        run.res,
+                        hex(&run.dst),
+                        run.state,
+                        run2.res,
+                        hex(&run2.dst),
+                        run2.state
+                    ),
+                );
+            }
+        }
+        ex.nontrivial = info.stream.len() >= 2 && (d >= 1 || !run.res.starts_with("ok"));
+    }
+    format!("{} {} {} | {}", run.res, hex(&run.dst), run.dst_cap, run.state)
+}
+
+fn exec_vectored_read(w: &[&str], line: &str, ex: &mut Exec) -> String {
+    let (op, rspec, mspec) = (w[0], w[1], w[2]);
+    ex.tag(format!("op:{op}"));
+    ex.tag(format!("rd:{}", rspec.split('/').map(|p| p.split(':').next().unwrap()).collect::<Vec<_>>().join("/")));
+    let orig = parse_members(mspec);
+    let r = catch(|| {
+        futures_executor::block_on(async {
+            let mut r = DynR::parse(rspec);
+            let m = parse_members(mspec);
+            let (res, m) = match op {
+                "rv" => {
+                    let BufResult(res, m) = r.read_vectored(m).await;
+                    (show_res(&res, ok_n), m)
+                }
+                "rvx" => {
+                    let BufResult(res, m) = r.read_vectored_exact(m).await;
+                    (show_res(&res, ok_unit), m)
+                }
+                _ => unreachable!(),
+            };
+            let mut facts = RdFacts::default();
+            let state = r.show(&mut facts);
+            (res, m, state, facts)
+        })
+    });
+    let nonprefix = f15_shape(&orig);
+    match r {
+        Err(m) => {
+            let sig = if nonprefix { "F15:vectored-nonprefix-init" } else { "C11:panic" };
+            ex.fail(sig, format!("{line} => panic: {m}"));
+            ex.tag(format!("res:{op}:panic"));
+            "panic".into()
+        }
+        Ok((res, m, state, facts)) => {
+            ex.tag(format!("res:{op}:{}", res.split(':').next().unwrap()));
+            if let Some(info) = script_info(rspec) {
+                let scripted = base_of(rspec).starts_with("s:");
+                let arrived: Option<usize> = res.strip_prefix("ok:").map(|n| n.parse().unwrap());
+                let d = if scripted { Some(facts.consumed - facts.buffered) } else { arrived };
+                if let Some(d) = d {
+                    if d <= info.stream.len() {
+                        // reference: the first d stream bytes laid over the capacity-concatenation;
+                        // every member keeps its other content
+                        let mut left = &info.stream[..d];
+                        let mut want: Vec<Vec<u8>> = vec![];
+                        for o in &orig {
+                            let k = left.len().min(o.capacity());
+                            let mut v = overlay(o, 0, &left[..k]);
+                            v.truncate(o.len().max(k));
+                            left = &left[k..];
+                            want.push(v);
+                        }
+                        if !left.is_empty() {
+                            ex.fail("C11:vectored-ref", format!("{line}: {d} bytes arrived, more than the capacity"));
+                        } else if want != m {
+                            let sig = if nonprefix { "F15:vectored-nonprefix-init" } else { "C11:vectored-ref" };
+                            ex.fail(
+                                sig,
+                                format!("{line}: members {} but the reference is {}", show_members(&m), show_members(&want)),
+                            );
+                        }
+                        if let Some(n) = arrived {
+                            if n != d {
+                                ex.fail("C11:vectored-ref", format!("{line}: returned {n} but {d} bytes arrived"));
+                            }
+                        }
+                    } else {
+                        ex.fail("C11:vectored-ref", format!("{line}: {d} bytes arrived from a {}-byte stream", info.stream.len()));
+                    }
+                    let total_cap: usize = orig.iter().map(|o| o.capacity()).sum();
+                    if op == "rvx" && (res == "ok") != (d == total_cap) && scripted {
+                        ex.fail("C11:read-exact-result", format!("{line}: result {res} with {d} of {total_cap} bytes"));
+                    }
+                    ex.nontrivial = orig.len() >= 2 && d >= 1;
+                }
+            }
+            format!("{} {} | {}", res, show_members(&m), state)
+        }
+    }
+}
+
+fn exec_bseq(w: &[&str], line: &str, ex: &mut Exec) -> String {
+    let (rspec, ops) = (w[1], w[2]);
+    ex.tag("op:bseq");
+    let steps: Vec<&str> = if ops == "." { vec![] } else { ops.split(',').collect() };
+    let mut outs: Vec<String> = vec![];
+    // everything handed to the caller (read results + consumed lent bytes), for the FIFO monitor
+    let mut delivered: Vec<u8> = vec![];
+    let mut r = Some(DynR::parse(rspec));
+    let mut lent: Vec<u8> = vec![];
+    for st in &steps {
+        let Some(rd) = r.as_mut() else {
+            outs.push("-".into());
+            continue;
+        };
+        let res = catch(|| {
+            futures_executor::block_on(async {
+                if *st == "f" {
+                    match rd.fill_buf().await {
+                        Ok(s) => (format!("f={}", hex(s)), Some(s.to_vec()), None),
+                        Err(e) => (format!("f={}", show_err(&e)), None, None),
+                    }
+                } else if let Some(n) = st.strip_prefix('c') {
+                    rd.consume(n.parse().expect("consume n"));
+                    ("c=ok".to_string(), None, Some(n.parse::<usize>().unwrap()))
+                } else if let Some(c) = st.strip_prefix('r') {
+                    let cap: usize = c.parse().expect("read cap");
+                    let BufResult(res, v) = rd.read(Vec::with_capacity(cap)).await;
+                    match res {
+                        Ok(_) => (format!("r={}", hex(&v)), Some(v), Some(usize::MAX)),
+                        Err(e) => (format!("r={}", show_err(&e)), None, None),
+                    }
+                } else {
+                    panic!("bseq step {st}")
+                }
+            })
+        });
+        match res {
+            Ok((text, bytes, consumed)) => {
+                match (bytes, consumed) {
+                    (Some(b), None) => lent = b,
+                    (None, Some(n)) => {
+                        delivered.extend_from_slice(&lent[..n.min(lent.len())]);
+                        lent = lent[n.min(lent.len())..].to_vec();
+                    }
+                    (Some(b), Some(_)) => {
+                        delivered.extend_from_slice(&b);
+                        lent.clear();
+                    }
+                    _ => {}
+                }
+                outs.push(text);
+            }
+            Err(_) => {
+                outs.push(format!("{}=panic", &st[..1]));
+                r = None;
+            }
+        }
+    }
+    let mut facts = RdFacts::default();
+    let state = match r {
+        Some(r) => r.show(&mut facts),
+        None => "dead".into(),
+    };
+    if let Some(info) = script_info(rspec) {
+        if !info.stream.starts_with(&delivered) {
+            ex.fail("C11:bufread-fifo", format!("{line}: delivered {} is not a prefix of the stream", hex(&delivered)));
+        }
+        if state != "dead" && base_of(rspec).starts_with("s:") && delivered.len() + facts.buffered != facts.consumed {
+            ex.fail(
+                "C11:bufread-fifo",
+                format!("{line}: {} delivered + {} buffered != {} consumed", delivered.len(), facts.buffered, facts.consumed),
+            );
+        }
+        ex.nontrivial = delivered.len() >= 2;
+    }
+    format!("{} | {}", if outs.is_empty() { ".".to_string() } else { outs.join(" ") }, state)
+}
+
+struct WrRun {
+    outs: Vec<String>,
+    state: String,
+    facts: WrFacts,
+    /// bytes the caller may consider accepted, exactly (None after an op whose accepted count is unknown)
+    accepted: Option<Vec<u8>>,
+    /// upper envelope: accepted-so-far ++ data of calls that failed midway
+    envelope: Vec<u8>,
+    flushed_ok_at_end: bool,
+    err_after_buffering: Vec<String>,
+}
+
+fn run_wseq(wspec: &str, steps: &[String]) -> WrRun {
+    ERR_AFTER_BUFFERING.with(|v| v.borrow_mut().clear());
+    let mut w = Some(DynW::parse(wspec));
+    let mut outs = vec![];
+    let mut accepted: Option<Vec<u8>> = Some(vec![]);
+    let mut envelope: Vec<u8> = vec![];
+    let mut flushed = false;
+    for st in steps {
+        let Some(wr) = w.as_mut() else {
+            outs.push("-".into());
+            continue;
+        };
+        let kind = &st[..1];
+        let arg = &st[1..];
+        let res = catch(|| {
+            futures_executor::block_on(async {
+                match kind {
+                    "f" => (show_res(&wr.flush().await, ok_unit), None, vec![]),
+                    "s" => (show_res(&wr.shutdown().await, ok_unit), None, vec![]),
+                    "w" => {
+                        let d = unhex(arg);
+                        let BufResult(r, d) = wr.write(d).await;
+                        let n = r.as_ref().ok().copied();
+                        (show_res(&r, ok_n), n, d)
+                    }
+                    "a" => {
+                        let d = unhex(arg);
+                        let BufResult(r, d) = wr.write_all(d).await;
+                        let n = if r.is_ok() { Some(d.len()) } else { None };
+                        (show_res(&r, ok_unit), n.or(Some(usize::MAX)), d)
+                    }
+                    "v" => {
+                        let m = parse_views(arg, '+');
+                        let BufResult(r, m) = wr.write_vectored(m).await;
+                        let n = r.as_ref().ok().copied();
+                        (show_res(&r, ok_n), n, m.concat())
+                    }
+                    "x" => {
+                        let m = parse_views(arg, '+');
+                        let BufResult(r, m) = wr.write_vectored_all(m).await;
+                        let n = if r.is_ok() { Some(m.concat().len()) } else { None };
+                        (show_res(&r, ok_unit), n.or(Some(usize::MAX)), m.concat())
+                    }
+                    _ => panic!("wseq step {st}"),
+                }
+            })
+        });
+        match res {
+            Ok((text, n, data)) => {
+                flushed = (kind == "f" || kind == "s") && text == "ok";
+                match n {
+                    Some(usize::MAX) => {
+                        // failed write_all: an unknown prefix of data was accepted
+                        accepted = None;
+                        envelope.extend_from_slice(&data);
+                    }
+                    Some(n) => {
+                        if let Some(a) = accepted.as_mut() {
+                            a.extend_from_slice(&data[..n]);
+                        }
+                        envelope.extend_from_slice(&data[..n]);
+                    }
+                    None => {}
+                }
+                outs.push(format!("{kind}={text}"));
+            }
+            Err(_) => {
+                outs.push(format!("{kind}=panic"));
+                w = None;
+            }
+        }
+    }
+    let mut facts = WrFacts::default();
+    let state = match w {
+        Some(w) => w.show(&mut facts),
+        None => "dead".into(),
+    };
+    WrRun {
+        outs,
+        state,
+        facts,
+        accepted,
+        envelope,
+        flushed_ok_at_end: flushed,
+        err_after_buffering: ERR_AFTER_BUFFERING.with(|v| v.borrow().clone()),
+    }
+}
+
+fn monitor_writer(line: &str, wspec: &str, run: &WrRun, ex: &mut Exec) {
+    let f13 = !run.err_after_buffering.is_empty();
+    if f13 {
+        ex.fail("F13:bufwriter-err-after-buffering", format!("{line}: {}", run.err_after_buffering[0]));
+    }
+    let sig = |s: &'static str| if f13 { "F13:bufwriter-err-after-buffering" } else { s };
+    if run.state == "dead" {
+        ex.fail("C11:panic", format!("{line}: writer panicked"));
+        return;
+    }
+    let base = base_of(wspec);
+    if let Some(got) = &run.facts.got {
+        let init: Vec<u8> = if let Some(h) = base.strip_prefix("v:") { unhex(h) } else { vec![] };
+        if !got.starts_with(&init) {
+            ex.fail(sig("C11:write-prefix"), format!("{line}: initial content lost"));
+            return;
+        }
+        let got = &got[init.len()..];
+        // bytes that reached the inner writer are a prefix of what the caller handed over
+        if !run.envelope.starts_with(got) {
+            ex.fail(
+                sig("C11:write-prefix"),
+                format!("{line}: inner writer received {} which is not a prefix of {}", hex(got), hex(&run.envelope)),
+            );
+        }
+        if let Some(acc) = &run.accepted {
+            // exact accounting: received + still buffered = accepted
+            if got.len() + run.facts.pending != acc.len() {
+                ex.fail(
+                    sig("C11:write-accounting"),
+                    format!("{line}: {} received + {} buffered != {} accepted", got.len(), run.facts.pending, acc.len()),
+                );
+            }
+            if run.flushed_ok_at_end && got != &acc[..] {
+                ex.fail(
+                    sig("C11:flush-complete"),
+                    format!("{line}: after a successful flush the inner writer has {} of accepted {}", hex(got), hex(acc)),
+                );
+            }
+        }
+        if run.flushed_ok_at_end && run.facts.pending != 0 {
+            ex.fail(sig("C11:flush-complete"), format!("{line}: {} bytes still buffered after flush", run.facts.pending));
+        }
+    }
+}
+
+fn exec_writer_line(w: &[&str], line: &str, ex: &mut Exec) -> String {
+    let op = w[0];
+    let wspec = w[1];
+    ex.tag(format!("op:{op}"));
+    ex.tag(format!("wr:{}", wspec.split('/').map(|p| p.split(':').next().unwrap()).collect::<Vec<_>>().join("/")));
+    let steps: Vec<String> = match op {
+        "wa" => vec![format!("a{}", w[2])],
+        "wva" => vec![format!("x{}", w[2].replace(';', "+"))],
+        "wseq" => {
+            if w[2] == "." {
+                vec![]
+            } else {
+                w[2].split(',').map(|s| s.to_string()).collect()
+            }
+        }
+        _ => unreachable!(),
+    };
+    let run = run_wseq(wspec, &steps);
+    monitor_writer(line, wspec, &run, ex);
+    for o in &run.outs {
+        ex.tag(format!("res:{op}:{}", o.split(':').next().unwrap()));
+    }
+    // Interrupted entries are transparent for the retrying helpers
+    if base_of(wspec).starts_with("s:") && base_of(wspec).split(':').nth(1).unwrap().split(',').any(|e| e == "i")
+        && steps.iter().all(|s| s.starts_with('a') || s.starts_with('x') || s == "f" || s == "s")
+        // flush/shutdown do not retry: only compare when every entry is consumed by a retrying helper
+        && steps.iter().all(|s| s.starts_with('a') || s.starts_with('x'))
+    {
+        let run2 = run_wseq(&strip_intr(wspec), &steps);
+        let f13 = !run.err_after_buffering.is_empty() || !run2.err_after_buffering.is_empty();
+        if run2.outs != run.outs || blur_script_left(&run2.state) != blur_script_left(&run.state) {
+            ex.fail(
+                if f13 { "F13:bufwriter-err-after-buffering" } else { "C11:intr-transparent" },
+                format!(
+                    "{line}: {} | {} but without the Interrupted entries {} | {}",
+                    run.outs.join(" "),
+                    run.state,
+                    run2.outs.join(" "),
+                    run2.state
+                ),
+            );
+        }
+    }
+    ex.nontrivial = run.envelope.len() >= 2;
+    let outs = if run.outs.is_empty() { ".".to_string() } else { run.outs.join(" ") };
+    match op {
+        "wseq" => format!("{} | {}", outs, run.state),
+        _ => {
+            // single helper call: print the bare result
+            let res = run.outs[0].split_once('=').unwrap().1.to_string();
+            if res == "panic" { "panic".into() } else { format!("{} | {}", res, run.state) }
+        }
+    }
+}
+
+fn exec_copy(w: &[&str], line: &str, ex: &mut Exec) -> String {
+    let (rspec, wspec, size) = (w[1], w[2], w[3].parse::<usize>().expect("size"));
+    ex.tag("op:cp");
+    ex.tag(format!("cp:size={}", if size > 16 { "big".to_string() } else { size.to_string() }));
+    ERR_AFTER_BUFFERING.with(|v| v.borrow_mut().clear());
+    let run = |rspec: &str, wspec: &str| {
+        catch(|| {
+            futures_executor::block_on(async {
+                let mut r = DynR::parse(rspec);
+                let mut wr = DynW::parse(wspec);
+                let res = compio_io::util::copy_with_size(&mut r, &mut wr, size).await;
+                let mut rf = RdFacts::default();
+                let mut wf = WrFacts::default();
+                let rs = r.show(&mut rf);
+                let ws = wr.show(&mut wf);
+                (show_res(&res.map(|n| n as usize), ok_n), rs, ws, rf, wf)
+            })
+        })
+    };
+    match run(rspec, wspec) {
+        Err(m) => {
+            ex.fail("C11:panic", format!("{line} => panic: {m}"));
+            "panic".into()
+        }
+        Ok((res, rs, ws, rf, wf)) => {
+            let f13 = ERR_AFTER_BUFFERING.with(|v| !v.borrow().is_empty());
+            if f13 {
+                ex.fail(
+                    "F13:bufwriter-err-after-buffering",
+                    format!("{line}: {}", ERR_AFTER_BUFFERING.with(|v| v.borrow()[0].clone())),
+                );
+            }
+            let sig = |s: &'static str| if f13 { "F13:bufwriter-err-after-buffering" } else { s };
+            ex.tag(format!("res:cp:{}", res.split(':').next().unwrap()));
+            if let (Some(info), Some(got)) = (script_info(rspec), wf.got.as_ref()) {
+                let init: Vec<u8> =
+                    if let Some(h) = base_of(wspec).strip_prefix("v:") { unhex(h) } else { vec![] };
+                let got = if got.starts_with(&init) { &got[init.len()..] } else { &got[..] };
+                // nothing duplicated, reordered or invented on the way
+                if !info.stream.starts_with(got) {
+                    ex.fail(
+                        sig("C11:copy-ref"),
+                        format!("{line}: writer received {} which is not a prefix of the stream {}", hex(got), hex(&info.stream)),
+                    );
+                }
+                if let Some(n) = res.strip_prefix("ok:") {
+                    let n: usize = n.parse().unwrap();
+                    if got.len() != n || wf.pending != 0 {
+                        ex.fail(
+                            sig("C11:copy-ref"),
+                            format!("{line}: returned {n}, writer has {} bytes, {} still buffered", got.len(), wf.pending),
+                        );
+                    }
+                    let (lim, bcap) = wrappers_of(rspec);
+                    let avail = lim.map_or(info.stream.len() as u64, |l| l.min(info.stream.len() as u64));
+                    if info.honest && n as u64 != avail {
+                        let s = if size == 0 {
+                            "F14:copy-size0-eof"
+                        } else if bcap == Some(0) {
+                            "F12:bufreader-cap0-eof"
+                        } else {
+                            sig("C11:copy-complete")
+                        };
+                        ex.fail(s, format!("{line}: size={size} cap={bcap:?} honest reader with {avail} bytes, copied {n}"));
+                    }
+                }
+                if base_of(rspec).starts_with("s:") {
+                    // every byte taken from the reader is at the writer, in its buffer, or was in
+                    // flight when an error ended the copy
+                    let inflight = rf.consumed - rf.buffered;
+                    if res.starts_with("ok:") && inflight != got.len() + wf.pending {
+                        ex.fail(sig("C11:copy-ref"), format!("{line}: {inflight} bytes read, {} written", got.len()));
+                    }
+                }
+                ex.nontrivial = info.stream.len() >= 2;
+                // transparency of Interrupted on both sides
+                let wi = base_of(wspec).starts_with("s:") && base_of(wspec).split(':').nth(1).unwrap().split(',').any(|e| e == "i");
+                if info.has_intr || wi {
+                    if let Ok((res2, rs2, ws2, ..)) = run(&strip_intr(rspec), &strip_intr(wspec)) {
+                        let f13b = ERR_AFTER_BUFFERING.with(|v| !v.borrow().is_empty());
+                        if res2 != res || blur_script_left(&rs2) != blur_script_left(&rs) || blur_script_left(&ws2) != blur_script_left(&ws) {
+                            ex.fail(
+                                if f13b { "F13:bufwriter-err-after-buffering" } else { "C11:intr-transparent" },
+                                format!("{line}: {res} | {rs} | {ws} but without the Interrupted entries {res2} | {rs2} | {ws2}"),
+                            );
+                        }
+                    }
+                }
+            }
+            format!("{} | {} | {}", res, rs, ws)
+        }
+    }
+}
+
+fn exec_line(line: &str, ex: &mut Exec) -> String {
+    let w: Vec<&str> = line.split_whitespace().collect();
+    match w[0] {
+        "rx" | "re" | "ap" | "rd" => exec_reader_line(&w, line, ex),
+        "rv" | "rvx" => exec_vectored_read(&w, line, ex),
+        "bseq" => exec_bseq(&w, line, ex),
+        "wa" | "wva" | "wseq" => exec_writer_line(&w, line, ex),
+        "cp" => exec_copy(&w, line, ex),
+        _ => mem::exec(&w, line, ex),
+    }
+}
+
+fn exec(case: &Case) -> Exec {
+    let mut ex = Exec::new();
+    for line in &case.lines {
+        let nt = ex.nontrivial;
+        let o = exec_line(line, &mut ex);
+        ex.nontrivial |= nt;
+        ex.out.push(o);
+    }
+    ex
+}
+
+// ---------------------------------------------------------------------------------------------
+// generation
+
+const CAPS: [usize; 5] = [0, 1, 2, 7, 8192];
+
+fn gen_payload(rng: &mut Rng, max: u64) -> Vec<u8> {
+    let n = rng.below(max + 1) as usize;
+    // distinct, position-dependent bytes: reordering or duplication is always visible
+    let base = rng.below(200) as u8;
+    (0..n).map(|i| base.wrapping_add(i as u8).max(1)).collect()
+}
+
+/// a script for a stream of `len` bytes
+fn gen_script(rng: &mut Rng, len: usize, honest: bool) -> Vec<O> {
+    let mut sc = vec![];
+    let style = rng.below(4);
+    let mut oks = 0;
+    let want_oks = len + 1 + rng.below(3) as usize;
+    while oks < want_oks {
+        if rng.chance(1, 5) {
+            sc.push(O::Intr);
+            continue;
+        }
+        if !honest {
+            match rng.below(14) {
+                0 => {
+                    sc.push(O::Err(rng.below(5) as u32));
+                    continue;
+                }
+                1 => {
+                    sc.push(O::Eof);
+                    continue;
+                }
+                2 => {
+                    sc.push(O::Ok(0));
+                    continue;
+                }
+                _ => {}
+            }
+        }
+        let n = match style {
+            0 => 1,
+            1 => rng.range(1, 3) as usize,
+            2 => *rng.pick(&[1usize, 2, 3, 5, 8, 100]),
+            _ => rng.range(1, (len as u64).max(1) + 2) as usize,
+        };
+        sc.push(O::Ok(n));
+        oks += 1;
+    }
+    if !honest && rng.chance(1, 3) {
+        let cut = rng.below(sc.len() as u64 + 1) as usize;
+        sc.truncate(cut);
+    }
+    sc
+}
+
+fn gen_reader(rng: &mut Rng, payload: &[u8], honest: bool) -> String {
+    let base = match rng.below(10) {
+        0 => format!("m:{}", hex(payload)),
+        1 => {
+            let pos = match rng.below(6) {
+                0 => payload.len() as u64,
+                1 => payload.len() as u64 + 3,
+                2 => u64::MAX,
+                _ => rng.below(payload.len() as u64 + 1),
+            };
+            format!("c:{}:{}", hex(payload), pos)
+        }
+        _ => format!("s:{}:{}", hex(payload), show_script(&gen_script(rng, payload.len(), honest))),
+    };
+    let mut spec = base;
+    let layers = match rng.below(10) {
+        0..=3 => 0,
+        4..=7 => 1,
+        8 => 2,
+        _ => 3,
+    };
+    for _ in 0..layers {
+        spec = match rng.below(7) {
+            0 | 1 => {
+                let l = match rng.below(6) {
+                    0 => 0,
+                    1 => 1,
+                    2 => payload.len() as u64,
+                    3 => payload.len() as u64 + 5,
+                    4 => u64::MAX,
+                    _ => rng.below(payload.len() as u64 + 1),
+                };
+                format!("take:{l}/{spec}")
+            }
+            2..=5 => format!("buf:{}/{}", rng.pick(&CAPS), spec),
+            _ => format!("half/{spec}"),
+        };
+    }
+    spec
+}
+
+fn gen_dst(rng: &mut Rng, want: usize) -> String {
+    let pre = match rng.below(4) {
+        0 => rng.range(1, 4) as usize,
+        _ => 0,
+    };
+    let extra = match rng.below(6) {
+        0 => 0,
+        1 => 1,
+        2 => want,
+        3 => want + 1,
+        4 => want.saturating_sub(pre),
+        _ => rng.below(want as u64 + 4) as usize,
+    };
+    let d: Vec<u8> = (0..pre).map(|i| 0xF0 + i as u8).collect();
+    format!("{}+{}", hex(&d), extra)
+}
+
+fn gen_members(rng: &mut Rng, want: usize, allow_nonprefix: bool) -> String {
+    let n = rng.range(0, 4) as usize;
+    let mut out = vec![];
+    let mut spare_seen = false;
+    for i in 0..n {
+        let cap = match rng.below(5) {
+            0 => 0,
+            1 => 1,
+            _ => rng.below(want as u64 / 2 + 3) as usize,
+        };
+        let mut pre = if rng.chance(1, 3) { rng.below(cap as u64 + 1) as usize } else { 0 };
+        if spare_seen && !allow_nonprefix {
+            pre = 0;
+        }
+        if pre < cap {
+            spare_seen = true;
+        }
+        let d: Vec<u8> = (0..pre).map(|j| 0xE0 + (i * 4 + j) as u8).collect();
+        out.push(format!("{}+{}", hex(&d), cap - pre));
+    }
+    if out.is_empty() { ".".into() } else { out.join(";") }
+}
+
+fn gen_views(rng: &mut Rng, payload: &[u8], sep: &str) -> String {
+    // cut the payload into members, with empty members sprinkled in
+    let mut out = vec![];
+    let mut i = 0;
+    while i < payload.len() {
+        if rng.chance(1, 5) {
+            out.push("-".to_string());
+        }
+        let n = (rng.range(1, 5) as usize).min(payload.len() - i);
+        out.push(hex(&payload[i..i + n]));
+        i += n;
+    }
+    if rng.chance(1, 4) {
+        out.push("-".to_string());
+    }
+    if out.is_empty() { ".".into() } else { out.join(sep) }
+}
+
+fn gen_writer(rng: &mut Rng, total: usize, honest: bool) -> String {
+    let base = match rng.below(12) {
+        0 => format!("v:{}", hex(&gen_payload(rng, 3))),
+        1 => format!("sm:{}", hex(&vec![0xAA; rng.below(total as u64 + 3) as usize])),
+        2 => {
+            let d = gen_payload(rng, 6);
+            let pos = match rng.below(4) {
+                0 => d.len() as u64 + rng.below(4),
+                _ => rng.below(d.len() as u64 + 1),
+            };
+            format!("cv:{}:{}", hex(&d), pos)
+        }
+        3 => {
+            let d = vec![0xBB; rng.below(total as u64 + 3) as usize];
+            let pos = match rng.below(5) {
+                0 => d.len() as u64 + rng.below(4),
+                1 => u64::MAX,
+                _ => rng.below(d.len() as u64 + 1),
+            };
+            format!("ca:{}:{}", hex(&d), pos)
+        }
+        _ => format!("s:{}", show_script(&gen_script(rng, total, honest))),
+    };
+    let mut spec = base;
+    if rng.chance(1, 2) {
+        spec = format!("buf:{}/{}", rng.pick(&CAPS), spec);
+    }
+    if rng.chance(1, 8) {
+        spec = format!("half/{spec}");
+    }
+    spec
+}
+
+fn gen_case(rng: &mut Rng, i: usize) -> Case {
+    let honest = rng.chance(1, 2);
+    let payload = gen_payload(rng, 24);
+    let line = match rng.below(20) {
+        0..=2 => {
+            let want = if rng.chance(2, 3) { rng.below(payload.len() as u64 + 1) as usize } else { payload.len() + 2 };
+            format!("rx {} {}", gen_reader(rng, &payload, honest), gen_dst(rng, want))
+        }
+        3..=5 => format!("re {} {}", gen_reader(rng, &payload, honest), gen_dst(rng, rng.below(40) as usize)),
+        6 => format!("ap {} {}", gen_reader(rng, &payload, honest), gen_dst(rng, payload.len())),
+        7 => format!("rd {} {}", gen_reader(rng, &payload, honest), gen_dst(rng, payload.len())),
+        8 => format!("rv {} {}", gen_reader(rng, &payload, honest), gen_members(rng, payload.len(), rng.chance(1, 6))),
+        9 | 10 => format!("rvx {} {}", gen_reader(rng, &payload, honest), gen_members(rng, payload.len(), rng.chance(1, 6))),
+        11 => {
+            // a buffered reader on top (possibly under a take)
+            let inner = gen_reader(rng, &payload, honest);
+            let mut spec = format!("buf:{}/{}", rng.pick(&CAPS), inner);
+            if rng.chance(1, 3) {
+                spec = format!("take:{}/{}", rng.below(payload.len() as u64 + 3), spec);
+            }
+            let mut ops = vec![];
+            for _ in 0..rng.range(1, 8) {
+                ops.push(match rng.below(4) {
+                    0 => "f".to_string(),
+                    1 => format!("c{}", rng.below(3)),
+                    2 => format!("r{}", rng.below(6)),
+                    _ => "f".to_string(),
+                });
+            }
+            // consume never exceeds what was lent: replay the lengths conservatively (consume ≤ 2 only
+            // after a fill that lent at least that much is not known here; the executor catches panics)
+            format!("bseq {} {}", spec, ops.join(","))
+        }
+        12..=14 => format!("wa {} {}", gen_writer(rng, payload.len(), honest), hex(&payload)),
+        15 => format!("wva {} {}", gen_writer(rng, payload.len(), honest), gen_views(rng, &payload, ";")),
+        16 | 17 => {
+            let mut ops = vec![];
+            let mut total = 0;
+            for _ in 0..rng.range(1, 7) {
+                let p = gen_payload(rng, 9);
+                total += p.len();
+                ops.push(match rng.below(8) {
+                    0 => "f".to_string(),
+                    1 => "s".to_string(),
+                    2 | 3 => format!("w{}", hex(&p)),
+                    4 => format!("v{}", gen_views(rng, &p, "+")),
+                    5 => format!("x{}", gen_views(rng, &p, "+")),
+                    _ => format!("a{}", hex(&p)),
+                });
+            }
+            if rng.chance(1, 2) {
+                ops.push("f".into());
+            }
+            format!("wseq {} {}", gen_writer(rng, total, honest), ops.join(","))
+        }
+        _ => {
+            let size = match rng.below(6) {
+                0 => 0,
+                1 => 1,
+                2 => 8192,
+                _ => rng.range(1, 9) as usize,
+            };
+            format!(
+                "cp {} {} {}",
+                gen_reader(rng, &payload, honest),
+                gen_writer(rng, payload.len(), honest),
+                size
+            )
+        }
+    };
+    Case { name: format!("g{i}"), lines: vec![line] }
+}
+
+/// every composition of a small payload into chunk sizes × one disturbance at every position
+fn exhaustive(cases: &mut Vec<Case>, max_len: usize) {
+    let mut k = 0;
+    for len in 0..=max_len {
+        let payload: Vec<u8> = (1..=len as u8).collect();
+        for comp in compositions(len) {
+            // disturbance: none, or Intr / Err / Eof inserted at position p
+            let mut scripts: Vec<Vec<O>> = vec![];
+            let base: Vec<O> = comp.iter().map(|n| O::Ok(*n)).chain([O::Ok(1)]).collect();
+            scripts.push(base.clone());
+            for p in 0..=base.len() {
+                for d in [O::Intr, O::Err(1), O::Eof] {
+                    let mut s = base.clone();
+                    s.insert(p, d);
+                    scripts.push(s);
+                }
+            }
+            for sc in scripts {
+                let s = show_script(&sc);
+                let h = hex(&payload);
+                let mut lines = vec![
+                    format!("rx s:{h}:{s} -+{len}"),
+                    format!("re s:{h}:{s} f0+0"),
+                    format!("wa s:{s} {h}"),
+                ];
+                for cap in [0usize, 1, 2, 7] {
+                    lines.push(format!("re buf:{cap}/s:{h}:{s} -+0"));
+                    lines.push(format!("rx buf:{cap}/s:{h}:{s} -+{len}"));
+                    lines.push(format!("wseq buf:{cap}/s:{s} a{h},f"));
+                }
+                lines.push(format!("rx take:{}/s:{h}:{s} -+{len}", len / 2));
+                lines.push(format!("cp s:{h}:{s} s:{s} 2"));
+                lines.push(format!("rvx s:{h}:{s} -+1;-+{}", len.saturating_sub(1)));
+                cases.push(Case { name: format!("x{k}"), lines });
+                k += 1;
+            }
+        }
+    }
+}
+
+fn generate(tier: &str, rng: &mut Rng) -> Vec<Case> {
+    let mut cases = vec![];
+    let (n, xlen) = if tier == "thorough" { (120_000, 6) } else { (6_000, 3) };
+    exhaustive(&mut cases, xlen);
+    for i in 0..n {
+        cases.push(gen_case(rng, i));
+    }
+    mem::generate(tier, rng, &mut cases);
+    cases
+}
+
+fn main() {
+    run_harness(
+        generate,
+        exec,
+        "a case is non-trivial when at least 2 payload bytes are involved and at least one byte moved or an error surfaced",
+    );
 }
